@@ -136,8 +136,9 @@ def known_findings(ctx):
     if len(obs) >= 1:
         m = re.match(r"root=(\S+) ref=(\S+) last=(\S+) dot=(\S+) refdot=(\S+)", obs[0])
         rep["KF-C10-infoname"] = bool(m and ((m.group(1) == m.group(3) and m.group(1) != m.group(2)) or m.group(4) != m.group(5)))
-    if len(obs) >= 2:
-        rep["KF-C10-rootops"] = obs[1].strip() == "removeall=<nil> base-dir-exists=false"
+    if len(obs) >= 3:
+        rep["KF-C10-renameself"] = obs[1].strip() == "bp=false ref=true"
+        rep["KF-C10-rootops"] = obs[2].strip() == "removeall=<nil> base-dir-exists=false"
     for kid, hit in rep.items():
         if kid in ids and hit:
             ctx.known_finding(kid, ids[kid]["what"])
@@ -248,6 +249,10 @@ def diagnose_table(ctx):
     sus = []
     for m in re.finditer(r'm_recv := "(\w*)"; m_name := "(\w+)";.*?m_shape := (.*?) \|\}', src, flags=re.S):
         recv, name, shape = m.groups()
+        allowed = (recv, name) in {("BasePathFS", "SetIdm"), ("BasePathFS", "SetUMask"), ("BasePathFS", "SetUser"),
+                                   ("BasePathFS", "SetUserByName"), ("BasePathFS", "Name"), ("BasePathFile", "Readdirnames")}
+        if allowed and not re.search(r"Unknown|RStrPanicky", shape):
+            continue   # allow-listed raw results (BasePathTable.raw_result_allowed / raw_string_allowed)
         if re.search(r'Unknown|RStrPanicky|RErrRaw|RStrRaw|ARaw "\w+" true', shape):
             sus.append("%s.%s: %s" % (recv, name, " ".join(shape.split())[:200]))
     fns = re.search(r"generic_fns.*?:=\s*\[(.*?)\]\.", src, flags=re.S)
